@@ -9,7 +9,7 @@ open Req.Proto Req.Ascii
 
 inductive Mode
   | path | pathSegment | host | zone | userPassword | queryComponent | fragment
-deriving DecidableEq, Repr, BEq
+deriving DecidableEq, Repr
 
 def isAlnum (c : UInt8) : Bool := isAlpha c || isDigit c
 
